@@ -348,7 +348,7 @@ func c04Run(t *testing.T, rep *verifReport, caFixture string, ed bool) {
 	rng := verifRand("c04-" + caFixture)
 	nCorrupt := 25
 	if verifThorough() {
-		nCorrupt = 1500
+		nCorrupt = 6000
 	}
 	for _, c := range consumers {
 		a := arte[c.Kind]
